@@ -1,6 +1,11 @@
 """C16 -- sampling is seed-deterministic and returns only existing elements.
 
-case = (op, data, numSlices, seed, params, streams, exps, logs, tag)
+case = (op, data, layout, seed, params, streams, exps, logs, tag)
+  layout = numSlices (the dataset is parallelize(list(data), numSlices))
+         | (parent_code, numSlices, partitions): the dataset is another parent built from data (PARENTS: generator /
+           range input, mapPartitions(sorted | list | lambda), mapPartitionsWithIndex, glom().flatMap, union,
+           coalesce, zip, cartesian, persisted and materialised, ...); `partitions` is its glom().collect(), which
+           is all the model sees of it
   op 0 sample(withReplacement, fraction, seed)         params = (wr, fraction: float, pass_as_int: bool)
   op 1 sampleByKey(withReplacement, fractions, seed)   params = (wr, {key: float})
   op 2 takeSample(withReplacement, num, seed)          params = (wr, num)
@@ -17,6 +22,7 @@ import random as _random
 import sys
 
 from common.coqlit import Err
+from common.harness import CaseTimeout, _limit
 from rngtap import Tap
 
 import pysparkling
@@ -35,7 +41,10 @@ RULE = ('cases (op, data, numSlices, seed, params, draw streams): seeds 0..N and
         '{0, tiny, .01, .3, .5, .99, 1, >1; with replacement .5, 1, 3, 0} x lists of ints/strings/pairs with duplicates '
         '(length 0..40) x slice counts 1..len+2 x takeSample sizes 0..len+3 x weight vectors (ints, dyadic and '
         'non-dyadic floats, zeros, [0.1]*10); an exhaustive grid on a 4-element list (sizes 0..7 x replacement x slices 1..3 x '
-        'seeds; fractions {0,.01,.5,1} and {.5,1,3}); every case once with the streams of the real twister (recorded) and '
+        'seeds; fractions {0,.01,.5,1} and {.5,1,3}); lists with None (first in a partition, whole partitions of None, [None], '
+        'None as key / value of pairs) under every operation; every operation applied directly to 17 kinds of parent '
+        '(generator/range input, mapPartitions(sorted|list|tuple|lambda), mapPartitionsWithIndex, glom().flatMap, union, '
+        'coalesce, zip, cartesian, persisted, map, filter); every case once with the streams of the real twister (recorded) and '
         'scripted streams with adversarial draws (0.0, 1-2^-53, the fraction, every boundary and its neighbours); '
         'non-trivial = non-empty data and a result that is neither an error nor empty-by-construction; distinct by '
         'canonical JSON of the case')
@@ -45,7 +54,9 @@ ASSUMPTIONS = [
     'every draw of random() lies in [0, 1) (true of the twister; scripted streams respect it)',
     'math.exp / math.log are uninterpreted functions (their graph on the evaluated arguments is part of the case)',
     'int weights / sample sizes below 2**53 (int/int true division equals the division of the converted floats)',
-    'sampleByKey keys are ints or strings (dict lookup modelled by structural equality)',
+    'sampleByKey keys are ints, strings or None (dict lookup modelled by structural equality)',
+    'a run of the implementation that does not return within CALL_LIMIT (20 s) is reported as a violation '
+    '(<op>:no-result-within-the-time-limit); generated inputs need milliseconds on the unchanged tree',
     'tasks run serially (default Context); concurrency is the subject of C03',
 ]
 TRUSTED = ['translator/kernels/c16.py (kernels of Gen/Sampling.v)', 'py/rngtap.py (recording/scripted random module)',
@@ -53,6 +64,9 @@ TRUSTED = ['translator/kernels/c16.py (kernels of Gen/Sampling.v)', 'py/rngtap.p
            'Flocq 4.1 (IEEE754.BinarySingleNaN) for the rounding facts behind randomSplit_partition']
 
 MAXSIZE = sys.maxsize
+CALL_LIMIT = 20          # seconds for one run of the implementation (generation, replay, oracle re-runs)
+NORESULT = 'NoResultWithinTimeLimit'
+TIMEOUT = object()
 ONE_MINUS = 1.0 - 2.0 ** -53
 
 
@@ -79,8 +93,65 @@ class MathTap:
         return y
 
 
-def call(op, data, nsl, seed, params):
-    rdd = Context().parallelize(list(data), nsl)
+PARENTS = ['list', 'gen', 'range', 'mp_sorted', 'mp_list', 'mp_lambda_list', 'mpi_list', 'glom_flatmap', 'union',
+           'coalesce', 'zip', 'cartesian', 'cached', 'map', 'cached_mp_list', 'mp_tuple', 'filter_true']
+
+
+def _sort_key(x):
+    return (type(x).__name__, repr(x))
+
+
+def build(sc, data, layout):
+    """The dataset the sampling operation is applied to."""
+    if isinstance(layout, int):
+        return sc.parallelize(list(data), layout)
+    name, nsl = PARENTS[layout[0]], layout[1]
+    data = list(data)
+    if name == 'gen':
+        return sc.parallelize((x for x in data), nsl)
+    if name == 'range':
+        return sc.parallelize(range(len(data)), nsl)
+    base = sc.parallelize(data, nsl)
+    if name == 'list':
+        return base
+    if name == 'mp_sorted':
+        return base.mapPartitions(lambda it: sorted(it, key=_sort_key))
+    if name == 'mp_list':
+        return base.mapPartitions(list)
+    if name == 'mp_lambda_list':
+        return base.mapPartitions(lambda it: list(it))
+    if name == 'mp_tuple':
+        return base.mapPartitions(tuple)
+    if name == 'mpi_list':
+        return base.mapPartitionsWithIndex(lambda i, it: list(it))
+    if name == 'glom_flatmap':
+        return base.glom().flatMap(lambda x: x)
+    if name == 'union':
+        h = len(data) // 2
+        return sc.parallelize(data[:h], nsl).union(sc.parallelize(data[h:], max(1, nsl - 1)))
+    if name == 'coalesce':
+        return sc.parallelize(data, nsl + 2).coalesce(max(1, nsl))
+    if name == 'zip':
+        return base.zip(sc.parallelize(list(range(len(data))), nsl))
+    if name == 'cartesian':
+        return sc.parallelize(data[:4], nsl).cartesian(sc.parallelize(data[:3], max(1, nsl - 1)))
+    if name == 'cached':
+        r = base.persist()
+        r.count()
+        return r
+    if name == 'cached_mp_list':
+        r = base.mapPartitions(list).cache()
+        r.collect()
+        return r
+    if name == 'map':
+        return base.map(lambda x: x)
+    if name == 'filter_true':
+        return base.filter(lambda x: True)
+    raise ValueError(name)
+
+
+def call(op, data, layout, seed, params):
+    rdd = build(Context(), data, layout)
     if op == 0:
         wr, f, as_int = params
         return rdd.sample(wr, int(f) if as_int else f, seed).glom().collect()
@@ -93,6 +164,15 @@ def call(op, data, nsl, seed, params):
     if op == 3:
         return [s.collect() for s in rdd.randomSplit(list(params[0]), seed)]
     raise ValueError(op)
+
+
+def limited(f, *a):
+    """A run of the implementation that must come back: TIMEOUT instead of a hang."""
+    try:
+        with _limit(CALL_LIMIT):
+            return f(*a)
+    except CaseTimeout:
+        return TIMEOUT
 
 
 def run_tapped(op, data, nsl, seed, params, script, mtap=None, entropy=None):
@@ -115,9 +195,18 @@ def run_tapped(op, data, nsl, seed, params, script, mtap=None, entropy=None):
 
 
 def impl(case):
-    op, data, nsl, seed, params, streams, _exps, _logs, _tag = case
+    op, data, nsl, seed, params, streams, _exps, _logs, tag = case
+    if tag == 'timeout':
+        # the implementation did not come back when the case was generated: try once more, untapped
+        r = limited(untapped, op, data, nsl, seed, params)
+        if r is TIMEOUT:
+            return Err(NORESULT)
+        return r if isinstance(r, Err) else (r, ('g', 0, 0))
     script = {k: (u, b) for k, u, b in streams}
-    return run_tapped(op, data, nsl, seed, params, script)[0]
+    r = limited(run_tapped, op, data, nsl, seed, params, script)
+    if r is TIMEOUT:
+        return Err(NORESULT)
+    return r[0]
 
 
 class LazyScript(dict):
@@ -133,11 +222,38 @@ class LazyScript(dict):
         return self[key]
 
 
+GEN_TIMEOUTS = collections.Counter()
+
+
+def with_parts(data, layout):
+    """Fill in the partitions of a non-parallelize parent (None if the parent itself cannot be built)."""
+    if isinstance(layout, int):
+        return layout
+    r = limited(lambda: build(Context(), data, layout).glom().collect())
+    if r is TIMEOUT:
+        return None
+    return (layout[0], layout[1], r)
+
+
 def finish(op, data, nsl, seed, params, script, tag, entropy=0):
     """Run the implementation once to learn which generators it creates and where it evaluates exp/log;
-    returns the complete case."""
+    returns the complete case.  An implementation that does not come back within CALL_LIMIT gives a case tagged
+    'timeout' (reported by the oracle); after two of them no more cases of that operation are generated."""
+    if GEN_TIMEOUTS[op] >= 2:
+        return None
+    if not isinstance(nsl, int) and len(nsl) == 2:
+        try:
+            nsl = with_parts(data, nsl)
+        except Exception:  # pylint: disable=broad-except
+            return None
+        if nsl is None:
+            return None
     mt = MathTap()
-    _, tap = run_tapped(op, data, nsl, seed, params, script, mt, entropy)
+    r = limited(run_tapped, op, data, nsl, seed, params, script, mt, entropy)
+    if r is TIMEOUT:
+        GEN_TIMEOUTS[op] += 1
+        return (op, data, nsl, seed, params, [], [], [], 'timeout')
+    _, tap = r
     if script is None:
         table = tap.streams()
     else:
@@ -154,8 +270,8 @@ def finish(op, data, nsl, seed, params, script, tag, entropy=0):
 
 
 # ------------------------------------------------------------------ oracle (implementation only)
-def parts_of(data, nsl):
-    return Context().parallelize(list(data), nsl).glom().collect()
+def parts_of(data, layout):
+    return build(Context(), data, layout).glom().collect()
 
 
 def is_subseq(small, big):
@@ -186,27 +302,36 @@ def untapped(op, data, nsl, seed, params):
 
 def oracle(case, result):
     op, data, nsl, seed, params, streams, _exps, _logs, tag = case
+    late = (f'{OPS[op]}:no-result-within-the-time-limit',
+            f'{OPS[op]}{params!r} with seed {seed!r} on {data!r} (layout {_layout_name(nsl)}) did not return within '
+            f'{CALL_LIMIT} s')
     if isinstance(result, Err):
+        if result.name == NORESULT:
+            return late
         if result.name.startswith('HarnessCrash'):
             return ('harness:crash', result.name)
         value = result
     else:
         value = result[0]
+    if tag == 'timeout':
+        return late          # it hung when the case was generated (and came back only on the second attempt)
     # determinism: equal seed and partitioning give an identical result (real generators, run twice;
     # for recorded streams also identical to the replayed result)
     if seed is not None:
-        a = untapped(op, data, nsl, seed, params)
-        b = untapped(op, data, nsl, seed, params)
+        a = limited(untapped, op, data, nsl, seed, params)
+        b = limited(untapped, op, data, nsl, seed, params) if a is not TIMEOUT else TIMEOUT
+        if a is TIMEOUT or b is TIMEOUT:
+            return late
         if not _eq(a, b):
             return (f'{OPS[op]}:not-deterministic', f'two runs with seed {seed}: {a!r} vs {b!r}')
         if tag == 'mt' and not _eq(a, value):
             return (f'{OPS[op]}:replay-differs', f'seed {seed}: untapped {a!r} vs replayed {value!r}')
     if isinstance(value, Err):
         return None
-    flat = list(data)
+    parts = parts_of(data, nsl)          # the input dataset of the sampling operation, freshly evaluated
+    flat = [x for p in parts for x in p]
     if op == 0:
         wr, f, _ = params
-        parts = parts_of(data, nsl)
         out = [x for p in value for x in p]
         if not wr:
             if len(value) != len(parts) or not all(is_subseq(o, p) for o, p in zip(value, parts)):
@@ -256,6 +381,10 @@ def oracle(case, result):
     return None
 
 
+def _layout_name(layout):
+    return f'parallelize/{layout}' if isinstance(layout, int) else f'{PARENTS[layout[0]]}/{layout[1]}'
+
+
 def _eq(a, b):
     if isinstance(a, Err) or isinstance(b, Err):
         return a == b
@@ -270,11 +399,12 @@ def kind(case):
     extra = ''
     if op in (0, 1, 2):
         extra = '-repl' if params[0] else '-norepl'
-    return f'{OPS[op]}{extra}-{tag}'
+    par = '' if isinstance(case[2], int) else '-' + PARENTS[case[2][0]]
+    return f'{OPS[op]}{extra}-{tag}{par}'
 
 
 def nontrivial(case, result):
-    return bool(case[1]) and not isinstance(result, Err) and bool(result[0])
+    return bool(case[1]) and not isinstance(result, Err) and bool(result[0]) and case[8] != 'timeout'
 
 
 # ------------------------------------------------------------------ generators
@@ -344,18 +474,70 @@ def scripted(rng, n_elems, specials, lam=1.0, zero_pad=True, b_small=True, need_
     return LazyScript(make)
 
 
-def both(rng, out, op, data, nsl, seed, params, specials, lam=1.0):
+def both(rng, out, op, data, nsl, seed, params, specials, lam=1.0, scr=True):
+    n = len(data)
+    if not isinstance(nsl, int):
+        try:
+            nsl = with_parts(data, nsl[:2])
+        except Exception:  # pylint: disable=broad-except
+            return
+        if nsl is None:
+            return
+        n = sum(len(p) for p in nsl[2])
     out.append(finish(op, data, nsl, seed, params, None, 'mt', rng.getrandbits(40)))
-    out.append(finish(op, data, nsl, seed, params, scripted(rng, len(data), specials, lam, b_small=rng.random() < 0.7, need_b=(op == 2)), 'scr'))
+    if scr:
+        out.append(finish(op, data, nsl, seed, params,
+                          scripted(rng, n, specials, lam, b_small=rng.random() < 0.7, need_b=(op == 2)), 'scr'))
+
+
+def op_variants(rng, data, keyed_fr=None):
+    """(op, params, specials, lam) for one dataset: every sampling operation, with and without replacement."""
+    n = len(data)
+    v = [(0, (False, 1.0, False), [1.0], 0.0), (0, (False, rng.choice([0.5, 0.3, 0.0]), False), [0.5, 0.3], 0.0),
+         (0, (True, 1.0, False), [], 1.0), (0, (True, rng.choice([3.0, 1.5]), False), [], 3.0),
+         (2, (False, rng.choice([n, n + 2, max(0, n - 1), 1])), [], 0.0),
+         (2, (True, rng.choice([n, n + 2, 1, 2])), [], 6.0),
+         (3, (rng.choice([[1, 1], [0.3, 0.3, 0.4], [2, 3], [0.1] * 10]),), [], 0.0)]
+    if keyed_fr is not None:
+        v.append((1, (False, keyed_fr), list(keyed_fr.values()), 0.0))
+        v.append((1, (True, keyed_fr), [], max([0.0] + list(keyed_fr.values()))))
+    return v
 
 
 def generate(rng, tier):
     quick = tier == 'quick'
     out = []
+    GEN_TIMEOUTS.clear()
+    # ---- None as data: first element of a partition, whole partitions of None, a single None
+    nones = [[None], [None, None, None], [None, 1, 2], [1, None, 2, None], [None, None, 3], [0, None, '', None, False],
+             [1, 2, None, 3], [None, 5, None, 5, None, 5]]
+    for data in nones:
+        for nsl in ((1, 2, 3) if quick else (1, 2, 3, 4, len(data), len(data) + 1)):
+            for seed in ((0,) if quick else (0, 1, 7, None)):
+                for op, params, specials, lam in op_variants(rng, data):
+                    both(rng, out, op, data, nsl, seed, params, specials, lam, scr=(not quick or rng.random() < 0.4))
+                # None as the key / as the value of a pair
+                keyed = [(x, i) for i, x in enumerate(data)]
+                fr = {None: rng.choice([1.0, 0.5]), 1: 0.0, 5: 1.0}
+                both(rng, out, 1, keyed, nsl, seed, (False, fr), [0.5, 1.0], 0.0, scr=not quick)
+                both(rng, out, 1, keyed, nsl, seed, (True, {None: 1.0, 2: 3.0}), [], 3.0, scr=not quick)
+                both(rng, out, 1, [(1, None), (2, None), (1, None)], nsl, seed, (False, {1: 1.0}), [1.0], 0.0, scr=False)
+    # ---- sampling applied directly to other parents (re-iterable partitions, local operations, caches)
+    for pc in range(len(PARENTS)):
+        for rep in range(3 if quick else 8):
+            base = rng.choice([[3, 1, 2, 5, 4, 9, 8], [None, 2, None, 2, 7], [4, 4, 4], list(range(12)), [6], [],
+                               ['b', 'a', 'c', 'a']]) if rep or rng.random() < 0.5 else [3, 1, 2, 5, 4, 9, 8]
+            nsl = rng.choice([1, 2, 3, 4])
+            seed = rng.choice([0, 1, 2, 11, None]) if rep else rng.choice([0, 3])
+            keyed_fr = None
+            if PARENTS[pc] in ('zip', 'cartesian'):
+                keyed_fr = {k: rng.choice([0.0, 0.5, 1.0]) for k in rng.sample([3, 1, 2, 5, 4, None, 'a', 0, 6], 4)}
+            for op, params, specials, lam in op_variants(rng, base, keyed_fr):
+                both(rng, out, op, base, (pc, nsl), seed, params, specials, lam, scr=(not quick or rng.random() < 0.4))
     # ---- sample
     fr_no = [0.0, 5e-324, 0.01, 0.3, 0.5, 0.99, ONE_MINUS, 1.0, 1.5, -0.5]
     fr_re = [0.0, 0.5, 1.0, 3.0, 0.01, 7.5, -1.0, -0.0]
-    for _ in range(130 if quick else 1500):
+    for _ in range(100 if quick else 1500):
         data = gen_data(rng)
         nsl = gen_slices(rng, len(data))
         seed = gen_seed(rng)
@@ -364,7 +546,7 @@ def generate(rng, tier):
         as_int = f in (0.0, 1.0, 3.0) and str(f) != '-0.0' and rng.random() < 0.3
         both(rng, out, 0, data, nsl, seed, (wr, f, as_int), [f], f if wr else 0.0)
     # ---- sampleByKey
-    for _ in range(90 if quick else 1000):
+    for _ in range(60 if quick else 1000):
         data = gen_data(rng, keyed=True)
         nsl = gen_slices(rng, len(data))
         seed = gen_seed(rng)
@@ -376,7 +558,7 @@ def generate(rng, tier):
     for data in ([1, 2], [(), (1, 2)], ['ab', ''], [None]):
         both(rng, out, 1, data, 2, 3, (False, {1: 0.5, 'a': 1.0}), [0.5])
     # ---- takeSample
-    for _ in range(110 if quick else 1200):
+    for _ in range(80 if quick else 1200):
         data = gen_data(rng, maxlen=14)
         nsl = gen_slices(rng, len(data))
         seed = gen_seed(rng)
@@ -414,7 +596,7 @@ def generate(rng, tier):
     wvs = [[2, 3], [1], [0.1] * 10, [0.5, 0.5], [1, 1, 1], [0.3, 0.3, 0.4], [1e-3, 1.0], [0, 1], [1, 0], [0.0, 0.0, 2.5],
            [3, 0.5], [0.5, 3], [0.1, 0.2, 0.3, 0.4], [1 / 3] * 3, [1e308, 1e308], [5e-324, 5e-324], [0.7, 0.1, 0.2], [1.0],
            [0, 0], [0.0], [], [1, 2, 3, 4, 5, 6, 7], [0.1] * 7, [2 ** 52 + 1, 1, 0.5]]
-    for _ in range(110 if quick else 1200):
+    for _ in range(80 if quick else 1200):
         data = gen_data(rng, maxlen=30)
         nsl = gen_slices(rng, len(data))
         seed = gen_seed(rng)
@@ -443,19 +625,26 @@ def generate(rng, tier):
             return (adversarial_u(r, bnd, n + 1, 0), b)
         sc.make = make
         out.append(finish(3, data, nsl, seed, (ws,), sc, 'scr'))
-    return out
+    return [c for c in out if c is not None]
 
 
 def shrink_candidates(case):
     op, data, nsl, seed, params, streams, exps, logs, tag = case
-    if tag != 'mt':
+    if tag == 'scr':
         return
-    for i in range(len(data)):
-        yield finish(op, data[:i] + data[i + 1:], nsl, seed, params, None, 'mt')
-    if nsl > 1:
-        yield finish(op, data, nsl - 1, seed, params, None, 'mt')
+    lay = nsl if isinstance(nsl, int) else tuple(nsl[:2])
+    cands = [(data[:i] + data[i + 1:], lay, seed) for i in range(len(data))]
+    if isinstance(nsl, int) and nsl > 1:
+        cands.append((data, nsl - 1, seed))
     if isinstance(seed, int) and seed not in (0, 1):
-        yield finish(op, data, nsl, 0, params, None, 'mt')
+        cands.append((data, lay, 0))
+    if tag == 'timeout':
+        cands = cands[:2]          # every attempt costs CALL_LIMIT seconds
+    for d, l, sd in cands:
+        GEN_TIMEOUTS.clear()
+        c = finish(op, d, l, sd, params, None, 'mt')
+        if c is not None:
+            yield c
 
 
 assert pysparkling.samplers.numpy is None, 'numpy present: the Poisson sampler would not be the pure-Python one'
